@@ -34,6 +34,9 @@ def env_variants(rng, k):
     return out
 
 
+KNOWN_TERA = "tera-builtin-functions-now-get_env-get_random"
+
+
 def run_check(tier, seed):
     run = Run(PID, tier, seed)
     rng = random.Random(seed * 1000003 + 14)
@@ -139,6 +142,29 @@ def run_check(tier, seed):
                 st["exit0"] += 1
                 run.nontrivial.add(base[i][1])
         run.samples.append({"stream": "env_matrix_stdin_none", "argv": base_cmds[0][0], "output": base[0][1].decode("utf-8", "replace")[:200]})
+
+        # ---------------- stream 1b: Tera's built-in functions are reachable from templates (known finding, recorded with these inputs):
+        # zerv's own variables and functions must stay deterministic next to them
+        st = run.streams.setdefault("tera_builtins_in_templates", {"cases": 0, "environment_dependent(known)": 0, "own_part_deterministic": 0})
+        probes = ["{{ now() }}", "{{ now(utc=false) }}", '{{ get_env(name="ZV_PROBE", default="-") }}', "{{ get_random(start=0, end=1000000000) }}"]
+        for tpl in probes:
+            argv = ["version", "--source=none", "--tag-version=1.2.3", "--bumped-timestamp=1700000000", "--output-template=" + tpl + "|{{ semver }}|{{ format_timestamp(value=bumped_timestamp, format='%Y-%m-%dT%H') }}"]
+            a = run_procs([(argv, None)], env={"TZ": "UTC", "ZV_PROBE": "one"})[0]
+            time.sleep(1.1)
+            b = run_procs([(argv, None)], env={"TZ": "Pacific/Kiritimati", "ZV_PROBE": "two"})[0]
+            st["cases"] += 1
+            run.evaluations += 1
+            if a[0] != 0 or b[0] != 0:
+                continue                                   # the built-in is not available (any more): nothing to record
+            oa, ob = a[1].decode("utf-8", "replace").strip().split("|"), b[1].decode("utf-8", "replace").strip().split("|")
+            if oa[0] != ob[0]:
+                st["environment_dependent(known)"] += 1
+                run.known_hits[KNOWN_TERA] += 1
+            if oa[1:] == ob[1:] == ["1.2.3", "2023-11-14T22"]:
+                st["own_part_deterministic"] += 1
+            else:
+                run.add_violation("oracle", {"stream": "tera_builtins_in_templates", "what": "zerv's own variables / functions differ between two environments",
+                                             "described": {"argv": argv}, "outputs": [a[1].decode("utf-8", "replace")[:300], b[1].decode("utf-8", "replace")[:300]]}, True)
 
         # ---------------- stream 2: git source: cwd / -C / subdirectory / environment
         repos = gitfx.standard_repos(os.path.join(root, "repos"))
